@@ -707,6 +707,12 @@ def hand_histories() -> list[dict]:
     for st_ in hh["states"]:
         st_["flags"] = ["--follow-imports=error", "--ignore-missing-imports"]
     extra.append(hh)
+    # (e) F13: whether `from pkg import s2` (s2 not a module on disk) is an error depends on ANOTHER module importing the
+    #     missing `pkg.s2` (manager.missing_modules is global); dropping / adding that other import leaves the importer fresh
+    g1 = {"main.py": "import pkg.s2  # type: ignore\nimport b\n", "b.py": "from pkg import s2\n", "pkg/__init__.py": ""}
+    g0 = {"main.py": "import b\n", "b.py": "from pkg import s2\n", "pkg/__init__.py": ""}
+    extra.append(H(9060, "F13:from-import-of-missing-submodule-depends-on-other-modules-imports", "entry", g1, g0))
+    extra.append(H(9061, "F13:from-import-of-missing-submodule-depends-on-other-modules-imports", "entry", g0, g1))
     return extra + [
         H(9016, "F11:cycle-shrunk-member-stays-fresh", "entry", c0, c1),
         H(9010, "directed:trans-dep-hash-of-cycle", "entry", t0, t1),
@@ -949,12 +955,31 @@ def classify(w: dict, c: dict, files: dict, h: dict) -> tuple[str, str]:
         return h["key"], what
     if is_f6(w, c, files):
         return "F6:from-import-name-becomes-submodule", what
+    if is_f13(w, c, files):
+        return "F13:from-import-of-missing-submodule-depends-on-other-modules-imports", what
     cw, cc = canon(w), canon(c)
     diff = [x for f in set(cw["files"]) | set(cc["files"]) for x in set(cw["files"].get(f, [])) ^ set(cc["files"].get(f, []))]
     if any("error: Cannot determine type of " in x for x in diff):
         # an import cycle whose members are processed in a different order by the warm run (finding F10)
         return "F10:import-cycle-processing-order:cannot-determine-type", what
     return h.get("key") or ("warm!=cold:" + key), what
+
+
+def is_f13(w: dict, c: dict, files: dict) -> bool:
+    """Finding F13: every differing line is `Module "p" has no attribute "n"` where p.n does NOT exist on disk: whether such
+    a from-import is an error depends on some other module importing the missing p.n (global missing_modules)."""
+    cw, cc = canon(w), canon(c)
+    diff = [x for f in set(cw["files"]) | set(cc["files"]) for x in set(cw["files"].get(f, [])) ^ set(cc["files"].get(f, []))]
+    if not diff:
+        return False
+    for x in diff:
+        m = re.search(r'error: Module "([\w.]+)" has no attribute "(\w+)"', x)
+        if not m:
+            return False
+        base = os.path.join(*m.group(1).split("."), m.group(2))
+        if any(p in files for p in (base + ".py", base + ".pyi", os.path.join(base, "__init__.py"), os.path.join(base, "__init__.pyi"))):
+            return False
+    return True
 
 
 def shrink(h: dict, cfg: str, pre: Prewarmed, base: str, budget_s: float, want_key: str | None = None) -> dict:
@@ -1092,6 +1117,7 @@ def model_cases(h: dict, res: dict) -> list[dict]:
     last_off: dict[str, int] = {}
     prev_files: dict[str, str] = {}
     skip_next = True                 # step 0 starts from the typeshed-only cache: compared too (everything stale)
+    prev_missing: set = set()
     for rec in res["steps"]:
         k = rec["k"]
         st = h["states"][k]
@@ -1188,11 +1214,22 @@ def model_cases(h: dict, res: dict) -> list[dict]:
                         for a_, b_ in re.findall(r"^\s*from\s+([\w.]+)\s+import\s+(\w+)", txt, re.M):
                             if f"{a_}.{b_}" in on_disk and f"{a_}.{b_}" not in (w["pre"][m].get("meta_deps") or []):
                                 py_probe = False
-                cases.append({"py_probe_fresh": py_probe, "term": term, "k": k, "rechecked": exp_re, "report": exp_rep, "topo_ok": topo_ok,
+                missing_now = {d for m in user for d in (w["pre"][m].get("supp") or [])}
+                py_missing = True
+                for m in user:
+                    if w["pre"][m].get("meta"):
+                        txt = st["files"][os.path.normpath(w["pre"][m]["rel"])]
+                        for a_, b_ in re.findall(r"^\s*from\s+([\w.]+)\s+import\s+(\w+)", txt, re.M):
+                            nm_ = f"{a_}.{b_}"
+                            if nm_ not in on_disk and ((nm_ in missing_now) != (nm_ in prev_missing)):
+                                py_missing = False
+                cases.append({"py_missing_stable": py_missing, "py_probe_fresh": py_probe, "term": term, "k": k, "rechecked": exp_re, "report": exp_rep, "topo_ok": topo_ok,
                               "names": {v: kname for kname, v in mods.d.items()}, "idx": h["idx"], "cfg": res["cfg"]})
             except KeyError as e:  # an expected record is missing (e.g. a module the cold run did not reach): not comparable
                 cases.append({"skip": f"history {h['idx']} step {k}: missing {e!r}"})
         skip_next = not ok
+        if w.get("pre"):
+            prev_missing = {d for m in (w.get("user") or []) for d in ((w["pre"].get(m) or {}).get("supp") or [])}
         if w.get("entries"):
             for m, e in w["entries"].items():
                 view[m] = e
@@ -1239,15 +1276,17 @@ def correspondence(ctx, hs: list[dict], results: list[dict], limit: int) -> None
     st_out = ctx.eval_cases("side", COQ_HEADER, [c["term"].replace("case ", "stab ", 1) for c in cases], per_file=120)
     side_ok: dict[tuple, bool] = {}
     if st_out is not None:
-        names = ["scc_stable(F11)", "probe_fresh(F6)", "kind_stable(F7)", "implicit_stable(F9)"]
+        names = ["scc_stable(F11)", "probe_fresh(F6)", "kind_stable(F7)", "implicit_stable(F9)", "missing_set_stable(F13)"]
         for cse, x in zip(cases, st_out):
             vals = re.findall(r"true|false", x)
             if len(vals) == 4 and not cse.get("py_probe_fresh", True):
                 vals[1] = "false"      # a probed name exists on disk although it is not (yet) in the loaded graph
+            if len(vals) == 4:
+                vals.append("true" if cse.get("py_missing_stable", True) else "false")
             for nm_, v in zip(names, vals):
                 ctx.add(f"side_condition_{nm_}_{v}")
             bad_side = [nm_ for nm_, v in zip(names, vals) if v == "false"]
-            side_ok[(cse["idx"], cse["cfg"], cse["k"])] = not bad_side and len(vals) == 4
+            side_ok[(cse["idx"], cse["cfg"], cse["k"])] = not bad_side and len(vals) == 5
             if (cse["idx"], cse["cfg"], cse["k"]) in diverging:
                 ctx.add("diverging_steps_with_a_false_side_condition" if bad_side else "diverging_steps_with_all_side_conditions_true")
     # cache_is_function_of_inputs: the records a warm run leaves = the records the cold run of the same step leaves
@@ -1377,7 +1416,8 @@ def judge(ctx, hs: list[dict], results: list[dict], pre: Prewarmed, base: str) -
         hh = copy.deepcopy(h)
         hh["states"] = hh["states"][: k + 1]
         hh["descs"] = hh["descs"][: k + 1]
-        small = hh if h.get("key") else shrink(hh, cfg, pre, base, budget_s=60 if ctx.quick else 240, want_key=key)
+        listed = {k_["key"] for k_ in vlib.load_known() if k_.get("property") == ctx.prop}
+        small = hh if (h.get("key") or key in listed) else shrink(hh, cfg, pre, base, budget_s=60 if ctx.quick else 120, want_key=key)
         last = small["descs"][-1].split(" ")[0] if small["descs"] else "?"
         ctx.violation(key, f"warm run differs from cold run after history {small['descs']} [{cfg}]: {what}",
                       {"kind": "history", "cfg": cfg, "roots": small["roots"], "states": small["states"], "descs": small["descs"], "last_edit": last})
@@ -1411,7 +1451,7 @@ def run(ctx) -> None:
         t = time.time()
         pre.build(cfgs)
         ctx.log(f"pre-warmed typeshed caches for {cfgs} ({time.time()-t:.0f}s)")
-        nh = ctx.n(int(os.environ.get("C02_QUICK_N", "6")), int(os.environ.get("C02_THOROUGH_N", "300")))
+        nh = ctx.n(int(os.environ.get("C02_QUICK_N", "6")), int(os.environ.get("C02_THOROUGH_N", "48")))
         hs = hand_histories() + [gen_history(ctx.seed, i) for i in range(nh)]
         ctx.cov["histories"] = len(hs)
         ctx.cov["hand_histories"] = len(hs) - nh
